@@ -40,7 +40,12 @@ def build_items(tier, seed, wd):
         tid += 1
         items.append({"tid": tid, "path": p, "name": corpus.rel(p), "args": args, "tag": tag})
 
+    # default configuration: every fixture; in the quick tier the golden outputs (*.fixed*.vhd, two thirds of the corpus and
+    # mostly clean) are sampled one in three, the inputs are all in
+    rnd0 = random.Random(seed + 99)
     for p in paths:
+        if tier == "quick" and ".fixed" in os.path.basename(p) and rnd0.random() > 1.0 / 3:
+            continue
         add(p, ["--fix"], "default")
     n_style = 120 if tier == "quick" else len(paths)
     sample = corpus.stratified_sample(paths, n_style, seed)
